@@ -5,7 +5,6 @@ from pyvc.contract import contract, Loop
 from contracts.common import *  # noqa
 
 F = 'fiddle/_src/experimental/serialization.py'
-approved = z3.Function('approved', Val, Val, B)    # policy approved (import and value) this value
 
 
 def plain_dict(h, v):
@@ -13,14 +12,88 @@ def plain_dict(h, v):
                 z3.Not(cls_in(h.cls(ref(v)), 'History')), ref(v) < h.alloc)
 
 
-# import_symbol is the policy gate (its own body uses importlib / getattr chains, which are
-# outside the subset: assumed contract; the policy clauses on whole documents are bounded)
-contract('serialization.import_symbol', F, 'import_symbol', abstract=True,
-         params=['policy', 'module', 'symbol'],
-         ensures=lambda c: approved(c['policy'], c.result),
-         may_raise=('Exception',), allocates=True,
-         note='assumed: returns a value only after policy.allows_import(module, symbol) and '
-              'policy.allows_value(value) returned true; otherwise raises')
+# --- import_symbol: the policy gate ---------------------------------------------------------------------
+# The decisions of a PyrefPolicy are modelled as (pure) predicates of the policy object and its
+# arguments; the methods themselves, importlib and attribute lookup are arbitrary code.
+import_ok = z3.Function('import_ok', Val, Val, Val, B)    # policy.allows_import(module, symbol)
+value_ok = z3.Function('value_ok', Val, Val, B)           # policy.allows_value(value)
+G_ALLOWED = 'g:import_allowed'     # ghost: 1 iff the last allows_import(...) call returned True
+G_IMPORTS = 'g:imports'            # ghost: number of importlib.import_module calls
+
+
+def approved(policy, value):
+  return value_ok(policy, value)
+
+
+contract('serialization.policy.allows_import', F, 'allows_import', abstract=True,
+         params=['self', 'module', 'symbol'],
+         ensures=lambda c: z3.And(c.result == VBool(import_ok(c['self'], c['module'], c['symbol'])),
+                                  c.heap.get(G_ALLOWED) == z3.If(import_ok(c['self'], c['module'], c['symbol']),
+                                                                 z3.IntVal(1), z3.IntVal(0))),
+         may_raise=('BaseException',), havoc_all=True, ghost_writes=(G_ALLOWED,),
+         note='assumed: a policy decision is a boolean function of the policy object and its arguments '
+              '(the method body is arbitrary user code)')
+contract('serialization.policy.allows_value', F, 'allows_value', abstract=True, params=['self', 'value'],
+         ensures=lambda c: c.result == VBool(value_ok(c['self'], c['value'])),
+         may_raise=('BaseException',), havoc_all=True,
+         note='assumed: as allows_import')
+contract('serialization.module_override', F, 'maybe_get_module_override_for_migrated_serialization_symbol',
+         abstract=True, params=['module', 'symbol'], ensures=lambda c: is_VStr(c.result), allocates=False,
+         note='assumed: pure string -> string table lookup')
+contract('importlib.import_module', F, 'import_module', abstract=True, params=['module'],
+         # the import itself is only ever reached after the policy allowed it
+         requires=lambda c: c.old.get(G_ALLOWED) == 1,
+         ensures=lambda c: c.heap.get(G_IMPORTS) == c.old.get(G_IMPORTS) + 1,
+         may_raise=('BaseException',), havoc_all=True, ghost_writes=(G_IMPORTS,),
+         raises_post={'BaseException': lambda c: c.heap.get(G_IMPORTS) == c.old.get(G_IMPORTS) + 1},
+         note='assumed: importing a module runs arbitrary code; the ghost counter records the call')
+contract('builtin.getattr_dyn', F, 'getattr', abstract=True, params=['obj', 'name'],
+         may_raise=('BaseException',), havoc_all=True,
+         note='assumed: attribute lookup with a computed name on an arbitrary object may run '
+              'arbitrary code (descriptors, __getattr__)')
+contract('serialization._fiddle_pyref_context', F, '_fiddle_pyref_context', abstract=True,
+         params=['module', 'symbol'], allocates=False, note='message formatting only')
+
+
+def _is_inv(c):
+  h0 = c.old
+  return z3.And(c.v('policy') == c['policy'], c.v('symbol') == c['symbol'],
+                c.heap.get(G_ALLOWED) == 1,
+                c.heap.get(G_IMPORTS) == h0.get(G_IMPORTS) + 1,
+                import_ok(c['policy'], c['module'], c['symbol']))
+
+
+contract(
+    'serialization.import_symbol', F, 'import_symbol',
+    requires=lambda c: z3.And(is_VRef(c['policy']), is_VStr(c['module']), is_VStr(c['symbol'])),
+    ensures=lambda c: z3.And(import_ok(c['policy'], c['module'], c['symbol']),
+                             value_ok(c['policy'], c.result),
+                             # exactly one import happened on the way to a returned value
+                             c.heap.get(G_IMPORTS) == c.old.get(G_IMPORTS) + 1),
+    may_raise=('BaseException',),
+    # a refusal by the policy never imports anything
+    # on every exceptional exit (whoever raised): nothing was imported unless the policy allowed
+    # the import, and never more than one module
+    raises_post={'BaseException': lambda c: z3.And(
+        z3.Or(c.heap.get(G_IMPORTS) == c.old.get(G_IMPORTS),
+              c.heap.get(G_IMPORTS) == c.old.get(G_IMPORTS) + 1),
+        z3.Implies(c.heap.get(G_IMPORTS) != c.old.get(G_IMPORTS),
+                   import_ok(c['policy'], c['module'], c['symbol'])))},
+    calls={'policy.allows_import': 'serialization.policy.allows_import',
+           'policy.allows_value': 'serialization.policy.allows_value',
+           'special_overrides.maybe_get_module_override_for_migrated_serialization_symbol':
+               'serialization.module_override',
+           'importlib.import_module': 'importlib.import_module',
+           'getattr': 'builtin.getattr_dyn'},
+    loops={0: Loop(_is_inv)},
+    havoc_all=True, ghost_writes=(G_ALLOWED, G_IMPORTS),
+    props=('C09',),
+    note='a value is returned only if policy.allows_import(module, symbol) and '
+         'policy.allows_value(value) both returned True for exactly these arguments; '
+         'importlib.import_module is reached only after allows_import returned True (precondition '
+         'of the abstract import at its call site) and at most once; on every exit, exceptional ones '
+         'included, a module was imported only if the policy allowed it',
+)
 
 
 def DeserInv(h, sv):
@@ -92,15 +165,20 @@ def _dp_req(c):
   p = c['pyref']
   return z3.And(is_VRef(c['self']), z3.Not(cls_in(h.cls(ref(c['self'])), 'Buildable')),
                 plain_dict(h, p), h.has(ref(p), strlit('type')),
-                h.has(ref(p), strlit('module')), h.has(ref(p), strlit('name')))
+                h.has(ref(p), strlit('module')), h.has(ref(p), strlit('name')),
+                is_VStr(h.dget(ref(p), strlit('module'))), is_VStr(h.dget(ref(p), strlit('name'))),
+                is_VRef(h.fld(ref(c['self']), '_pyref_policy')))
 
 
 contract(
     'serialization.Deserialization._deserialize_pyref', F, 'Deserialization._deserialize_pyref',
     requires=_dp_req,
-    ensures=lambda c: approved(c.old.fld(ref(c['self']), '_pyref_policy'), c.result),
+    ensures=lambda c: z3.And(
+        value_ok(c.old.fld(ref(c['self']), '_pyref_policy'), c.result),
+        import_ok(c.old.fld(ref(c['self']), '_pyref_policy'),
+                  c.old.dget(ref(c['pyref']), strlit('module')), c.old.dget(ref(c['pyref']), strlit('name')))),
     raises={'AssertionError': lambda c: c.old.dget(ref(c['pyref']), strlit('type')) != strlit('pyref')},
-    may_raise=('Exception',), havoc_all=True,
+    may_raise=('BaseException',), havoc_all=True, ghost_writes=(G_ALLOWED, G_IMPORTS),
     props=('C09',),
     note='every Python symbol resolved by deserialization comes out of import_symbol called with '
          'this Deserialization\'s own policy (no other resolver, no cache in front of it)',
